@@ -151,6 +151,8 @@ def c_site(s):
         return f"(SPortRef {cstr(s[1])} {cstr(s[2])})"
     if k == "noconn":
         return f"(SNoConn {'None' if s[1] is None else '(Some ' + cstr(s[1]) + ')'} {cstr(s[2])} {cstr(s[3])})"
+    if k == "noconn_member":
+        return f"(SNoConnMember {'None' if s[1] is None else '(Some ' + cstr(s[1]) + ')'} {cstr(s[2])} {cstr(s[3])} {clist(s[4], cstr)})"
     if k == "bundle":
         return f"(SFlatMember {cstr(s[1])} {cstr(s[2])})"
     if k == "array":
@@ -172,6 +174,8 @@ def events_of(out):
                 site, cls = ["portref", t["inst"], t["port"]], "portref"
             elif kind == "noconn":
                 site, cls = ["noconn", t["ncname"], t["inst"], t["port"]], ("noconn_unnamed" if t["ncname"] is None else "noconn_named")
+                if len(segs) > 1:      # noconn_array_bundle: a no-connect on a bundle-valued port of an instance array, one signal per member
+                    site = ["noconn_member", t["ncname"], t["inst"], t["port"], segs[1:]]
             elif kind == "bundle":
                 site, cls = ["bundle", t["bundle"], segs[1] if len(segs) == 2 else "?"], "bundle"
             elif kind == "arrays":
